@@ -124,6 +124,14 @@ def observe_case(a, th, tracked, sample_lists, cmap, tmap, tscale, rng):
                 and sorted(o3["roots"]) == sorted(want["roots"])):
             reuse = 0
     seq["reuse_same"] = reuse
+    # aslist(): independent copies of every tree, each equal to what the iteration showed (sample lists included)
+    same = 1
+    for i_, t3 in enumerate(ts.aslist(**kw)):
+        o4 = observe_tree(t3, cmap)
+        if not (all(o4[f] == trees[i_][f] for f in ("index", "left", "right", "parent", "edge", "ns", "nt", "num_edges", "sites", "samples", "vsamples"))
+                and sorted(o4["roots"]) == sorted(trees[i_]["roots"])):
+            same = 0
+    seq["aslist_same"] = same
     return dict(ts=a2, th=th, tracked=list(tracked), trees=trees, seq=seq, maps=[cmap.kind, tmap.kind, tmap.offset])
 
 
@@ -211,6 +219,8 @@ def run():
             f.append("at_index_differs_from_iteration")
         if not c["seq"]["reuse_same"]:
             f.append("repositioned_tree_differs_from_iteration")
+        if not c["seq"]["aslist_same"]:
+            f.append("aslist_copy_differs_from_iteration")
         if f:
             chk.violation("trace rejected by Trace_Trees: failing clauses %s %s" % (f, st["eval_errors"].get(c["id"], "")[-600:]), c)
         else:
